@@ -1,5 +1,5 @@
 import HexProofs.Framework.Schedule
-import HexProofs.Framework.Timeframe
+import HexProofs.Framework.Fill
 import HexProofs.Framework.Kinds.All
 import HexProofs.Lib.IntInst
 import HexProps.C03
@@ -13,14 +13,14 @@ on the base timeframe (no timeframe / fill / conversion / lifespan), any constru
 any append schedule end with the same candles and readings as one batch `calculate()` – and both
 equal the row-major specification `rowMajor` (each reading computed from the prefix only).
 The equality is in `PyM`: if a reading raises, both runs raise the same exception.
-On a COLLAPSING timeframe (no fill) the same holds whenever the live history runs (a reading on
+On a COLLAPSING timeframe, with or without gap filling, the same holds whenever the live history runs (a reading on
 the still-forming bucket may raise where the batch run, which never sees that intermediate
 bucket, does not): the live candles equal the batch candles and both equal
-`rowMajor ind (resample tf stream)`.
+`rowMajor ind (resample tf stream)`, resp. `rowMajor ind (fillSpec tf stream)` with fill.
 Contract instances proved so far (`Covered`): HLA, TR, OBV, SMA, EMA, RMA, WMA, VWMA, ROC,
 Counter, HL, Aroon, Donchian, Amorph (all 20 wrapped functions) – i.e. every shipped leaf class;
-see `C01_partial`, `C01_partial_tf`.  The full statement (composites, gap filling) is
-`C01_FULL`; what is missing is listed there.
+see `C01_partial`, `C01_partial_tf`.  The full statement (composites, indicator-on-indicator
+inputs) is `C01_FULL`; what is missing is listed there.
 -/
 namespace Hex.C01
 open Hex
@@ -77,6 +77,19 @@ theorem schedule_independent_leaf_tf (tf : Int) (htf : 0 < tf) (ind : Ind F) (hl
   rw [runBatch_tf tf htf ind hl K _ hraw]
   exact runIndicator_tf_refines tf htf ind hl K init chunks hraw snap hlive
 
+/-- **C01 for leaf kinds on a collapsing timeframe with gap filling.**  Whenever the live history
+runs (every append re-collapses the open bucket and re-fills the gaps), the batch run over the
+whole stream ends with exactly the same candles – real buckets, inserted flat candles, and the
+readings on both. -/
+theorem schedule_independent_leaf_fill (tf : Int) (htf : 0 < tf) (ind : Ind F) (hl : IsLeaf ind)
+    (K : Contract ind) (init : List (Candle F)) (chunks : List (List (Candle F)))
+    (hraw : RawTf (init ++ chunks.flatten)) (snap : List (Candle F))
+    (hlive : candlesOf (runIndicator ind (cfgFill tf) init chunks) = .ok snap) :
+    candlesOf (runBatch ind (cfgFill tf) (init ++ chunks.flatten)) = .ok snap := by
+  unfold runBatch
+  rw [runBatch_fill tf htf ind hl K _ hraw]
+  exact runIndicator_fill_refines tf htf ind hl K init chunks hraw snap hlive
+
 /-! ### the shipped leaf kinds as top-level indicators -/
 
 /-- **C01, partial: all covered kinds, base timeframe.**  `Covered name k` lists the leaf kinds
@@ -92,15 +105,19 @@ theorem C01_partial (k : Kind F) (name : String) (round : Nat) (hk : Covered nam
   obtain ⟨K⟩ := hk.contract round
   exact schedule_independent_leaf _ (hk.isLeaf round) K init chunks hp
 
-/-- **C01, partial: all covered kinds, collapsing timeframe** (no fill): whenever the live
-history runs, the batch run returns the same candles. -/
-theorem C01_partial_tf (tf : Int) (htf : 0 < tf) (k : Kind F) (name : String) (round : Nat)
-    (hk : Covered name k) (init : List (Candle F)) (chunks : List (List (Candle F)))
+/-- **C01, partial: all covered kinds, collapsing timeframe, gap filling off or on**: whenever
+the live history runs, the batch run returns the same candles. -/
+theorem C01_partial_tf (tf : Int) (htf : 0 < tf) (fill : Bool) (k : Kind F) (name : String)
+    (round : Nat) (hk : Covered name k) (init : List (Candle F)) (chunks : List (List (Candle F)))
     (hraw : RawTf (init ++ chunks.flatten)) (snap : List (Candle F))
-    (hlive : candlesOf (runIndicator (mkTop k name round) (cfgTf tf) init chunks) = .ok snap) :
-    candlesOf (runBatch (mkTop k name round) (cfgTf tf) (init ++ chunks.flatten)) = .ok snap := by
+    (hlive : candlesOf (runIndicator (mkTop k name round) { tf := some tf, fill := fill } init chunks)
+      = .ok snap) :
+    candlesOf (runBatch (mkTop k name round) { tf := some tf, fill := fill } (init ++ chunks.flatten))
+      = .ok snap := by
   obtain ⟨K⟩ := hk.contract round
-  exact schedule_independent_leaf_tf tf htf _ (hk.isLeaf round) K init chunks hraw snap hlive
+  cases fill with
+  | false => exact schedule_independent_leaf_tf tf htf _ (hk.isLeaf round) K init chunks hraw snap hlive
+  | true => exact schedule_independent_leaf_fill tf htf _ (hk.isLeaf round) K init chunks hraw snap hlive
 
 /-! ### the full statement -/
 
@@ -127,8 +144,8 @@ without gap filling, every construction prefix and append schedule.
 NOT proved yet.  Missing: (i) inputs that are other indicators' readings (here: candle
 attributes only, the stream being raw); (ii) the framework refinement for trees with
 sub-indicators / managed helpers (`calcSubs`, `setManagedReading`), where ADX is known to violate the statement (see
-known_findings); (iii) gap filling (`fill = true`): the refinement of `fillMissing` on a
-decorated bucket list (the timeframe case without fill is `schedule_independent_leaf_tf`).
+known_findings).  (Timeframes and gap filling are done: `schedule_independent_leaf_tf`,
+`schedule_independent_leaf_fill`.)
 Note that with a timeframe the statement can only hold for histories that run: a reading on the
 still-forming bucket may raise where the batch run does not; so the full statement is about
 runs that return. -/
@@ -150,19 +167,20 @@ def demo : List (Candle Int) :=
 
 def demoSMA : Ind Int := mkTop (.sma 2 "close") "SMA_2" 4
 
-theorem isKey_SMA_2 : IsKey "SMA_2" := by decide
 
 example : RawInput demo := by decide
-/-- `SMA_2` over `close` is covered … -/
-theorem covered_demo : Covered (F := Int) "SMA_2" (.sma 2 "close") :=
-  .sma 2 "close" (by decide) isKey_SMA_2 (by decide)
-example : IsLeaf demoSMA := covered_demo.isLeaf 4
-example : Nonempty (Contract demoSMA) := covered_demo.contract 4
+/-- `SMA_2` over `close` is covered: the name is an ordinary key, the input a candle field … -/
+example : IsKey "SMA_2" := by decide
+example : Covered (F := Int) "SMA_2" (.sma 2 "close") := .sma 2 "close" (by decide) (by decide) (by decide)
+example : IsLeaf demoSMA := (Covered.sma 2 "close" (by decide) (by decide) (by decide)).isLeaf 4
+example : Nonempty (Contract demoSMA) :=
+  (Covered.sma 2 "close" (by decide) (by decide) (by decide)).contract 4
 /-- … and the theorem applies to a schedule with an empty start, a single candle, an empty chunk
 and a larger chunk -/
 example : candlesOf (runIndicator demoSMA {} [] [demo.take 1, [], demo.drop 1])
     = candlesOf (runBatch demoSMA {} demo) :=
-  C01_partial (.sma 2 "close") "SMA_2" 4 covered_demo [] [demo.take 1, [], demo.drop 1] (by decide)
+  C01_partial (.sma 2 "close") "SMA_2" 4 (.sma 2 "close" (by decide) (by decide) (by decide))
+    [] [demo.take 1, [], demo.drop 1] (by decide)
 /-- other covered kinds with concrete parameters -/
 example : Covered (F := Int) "EMA_3" (.ema 3 "close" (.int 2)) := .ema 3 "close" _ (by decide) (by decide)
 example : Covered (F := Int) "VWMA_4" (.vwma 4) := .vwma 4 (by decide) (by decide)
@@ -188,5 +206,16 @@ example : smaColumn (candlesOf (runIndicator demoSMA (cfgTf 120) [] [demo.take 1
     = some [none, some 5] := by decide +kernel
 example : smaColumn (candlesOf (runBatch demoSMA (cfgTf 120) demo)) = some [none, some 5] := by
   decide +kernel
+
+/-- with gap filling: a stream with a two-bucket gap (stamps 60, 120 | gap | 420, 480 on a
+two-minute timeframe): the filled series has 4 candles, the live and the batch run return -/
+def gappy : List (Candle Int) :=
+  [ { o := .int 1, h := .int 3, l := .int 1, c := .int 2, v := .int 10, ts := some 60 },
+    { o := .int 2, h := .int 5, l := .int 2, c := .int 4, v := .int 20, ts := some 120 },
+    { o := .int 4, h := .int 4, l := .int 0, c := .int 1, v := .int 5, ts := some 420 },
+    { o := .int 1, h := .int 7, l := .int 1, c := .int 6, v := .int 8, ts := some 480 } ]
+example : RawTf gappy := ⟨by decide, by decide, by decide, by decide⟩
+example : smaColumn (candlesOf (runIndicator demoSMA (cfgFill 120) [] [gappy.take 1, gappy.drop 1]))
+    = some [none, some 4, some 4, some 5] := by decide +kernel
 
 end Hex.C01
